@@ -73,7 +73,7 @@ theorem rule_unit_independent (reg : Registry) (rules : List Rule) (a b : Contai
     have := hdim p
     simp only [get_add, get_sub, hsrc, hdst] at this ⊢
     grind
-  have hka : allKnown reg (add a r.kunit) = true := by rw [allKnown_add, ha, hk]; rfl
+  have hka : allKnown reg (add a r.kunit) = true := by rw [allKnown_add_eq, ha, hk]; rfl
   obtain ⟨f, hf⟩ := same_dims_convert reg (add a r.kunit) b hka hb hdims
   refine ⟨norm (add f (add r.kscale [])), norm (add r.ksyms []), ?_, ?_, ?_⟩
   · rw [convertWithRules_known ha hb, hpath]
@@ -126,7 +126,7 @@ theorem rule_of_wrong_dimension_refused (reg : Registry) (rules : List Rule) (a 
   have hne' : dimsOf reg a ≠ dimsOf reg b := fun h => hne (h ▸ Equiv.refl _)
   have hpath := findPath_direct hne' hr
   have hnil : add r.kunit ([] : Container) = r.kunit := by simp [add]
-  have hka : allKnown reg (add a r.kunit) = true := by rw [allKnown_add, ha, hk]; rfl
+  have hka : allKnown reg (add a r.kunit) = true := by rw [allKnown_add_eq, ha, hk]; rfl
   rw [convertWithRules_known ha hb, hpath]
   simp only [rulesAlong, hr, pathUnit, hnil, mismatch_is_error' reg _ b hka hb hdim]
 
@@ -160,7 +160,7 @@ theorem rule_chain (reg : Registry) (rules : List Rule) (a b : Container) (m : D
     simp only [get_add, get_sub, hsrc₁, hdst₁, hsrc₂, hdst₂] at *
     grind
   have hka : allKnown reg (add a (add r₁.kunit r₂.kunit)) = true := by
-    rw [allKnown_add, allKnown_add, ha, hk₁, hk₂]; rfl
+    rw [allKnown_add_eq, allKnown_add_eq, ha, hk₁, hk₂]; rfl
   obtain ⟨f, hf⟩ := same_dims_convert reg _ b hka hb hdims
   refine ⟨norm (add f (add r₁.kscale (add r₂.kscale []))), norm (add r₁.ksyms (add r₂.ksyms [])), ?_, ?_, ?_⟩
   · rw [convertWithRules_known ha hb, hpath]
